@@ -12,7 +12,7 @@
     * `newOctree` (every element list, every depth) builds a `Covers` tree whose elements are a
       permutation of the input.
 -/
-import PolyVerif.Lemmas.Bvh
+import PolyVerif.Lemmas.TreeTri
 
 namespace PolyVerif
 namespace C16
@@ -196,14 +196,24 @@ theorem seg_cp_cases (a b v : P3) :
     · right; right
       exact ⟨t, le_of_lt (not_le.mp h0), le_of_lt (not_le.mp h1), by simp [h1, h0]⟩
 
-/-- the closest point of a point / segment / well-formed box element lies in the element's own bounding box
-    (not proved for triangles: `scopedTri.ClosestPoint`) -/
+/-- `scopedTri.ClosestPoint` (plane projection if `PointInSide` — all three normals agree, /repo f8880ab — accepts it,
+    else the nearest of the closest points on the three edges) of a non-degenerate triangle lies in the triangle's
+    bounding box.  (With the predicate as it was before f8880ab this is false: see notes, defect 3.) -/
+theorem tri_closest_in_box (a b c v : P3) (hnd : 0 < ((b.Sub a).Cross (c.Sub a)).LengthSquared) :
+    (aabbFromPoints3 a b c).Contains (triClosestPoint a b c v) = true :=
+  tri_closest_in_box_aux a b c v hnd
+
+example : 0 < (((⟨1, 0, 0⟩ : P3).Sub ⟨0, 0, 0⟩).Cross ((⟨0, 1, 0⟩ : P3).Sub ⟨0, 0, 0⟩)).LengthSquared := by
+  norm_num [V3.Sub, V3.Cross, V3.LengthSquared]
+
+/-- the closest point of a point / segment / well-formed box / non-degenerate triangle element lies in the
+    element's own bounding box — the hypothesis of `closest_eq_scan` for all four element kinds -/
 theorem prim_closest_in_box (p : Prim ℝ) (v : P3)
     (hbox : ∀ b, p = .box b → 0 ≤ b.extents.x ∧ 0 ≤ b.extents.y ∧ 0 ≤ b.extents.z)
-    (hnt : ∀ a b c, p ≠ .tri a b c) :
+    (htri : ∀ a b c, p = .tri a b c → 0 < ((b.Sub a).Cross (c.Sub a)).LengthSquared) :
     p.boundingBox.Contains (p.closestPoint v) = true := by
   cases p with
-  | tri a b c => exact absurd rfl (hnt a b c)
+  | tri a b c => exact tri_closest_in_box_aux a b c v (htri a b c rfl)
   | point q =>
     rw [Tree.aabb_contains_iff]
     simp [Prim.boundingBox, Prim.closestPoint, NewAABB, AABB.Min, AABB.Max, V3.Sub, V3.Add, V3.Scale, V3.Zero]
@@ -481,6 +491,45 @@ example : BInv (fun (a b : Int × Int) => b.1 ≤ a.1 ∧ a.2 ≤ b.2) (fun (h :
   intro h hh
   simp [Bvh.leaves] at hh
   rcases hh with rfl | rfl <;> decide
+
+/-- End to end for `ClosestPoint`: on the tree `NewOctreeWithDepth` builds from ANY non-empty list of points, segments,
+    well-formed boxes and non-degenerate triangles, at ANY depth, `OctTree.ClosestPoint` returns the index of an input
+    element that minimises the distance over the whole input, together with that element's closest point. -/
+theorem octree_closest_eq_scan_of_input (ps : List (Prim ℝ)) (depth : Nat)
+    (hbox : ∀ p ∈ ps, ∀ b, p = .box b → 0 ≤ b.extents.x ∧ 0 ≤ b.extents.y ∧ 0 ≤ b.extents.z)
+    (htri : ∀ p ∈ ps, ∀ a b c, p = .tri a b c → 0 < ((b.Sub a).Cross (c.Sub a)).LengthSquared)
+    (t : Oct Box (Elem ℝ)) (ht : newOctreeWithDepth ps depth = some t) (v : P3) :
+    ∃ i pt, closestPoint t v = some (i, pt) ∧ ∃ e ∈ mkElems ps, e.id = i ∧ pt = e.prim.closestPoint v ∧
+      ∀ e' ∈ mkElems ps, pt.DistanceSquared v ≤ (e'.prim.closestPoint v).DistanceSquared v := by
+  have hb := build_covers ps depth (fun p hp => prim_box_wf p (hbox p hp))
+  rw [ht] at hb
+  obtain ⟨hc, hp⟩ := hb
+  have hprim : ∀ e ∈ t.allElems, e.box.Contains (e.prim.closestPoint v) = true := by
+    intro e he
+    obtain ⟨h1, h2⟩ := mem_mkElems (hp.subset he)
+    rw [h2]
+    exact prim_closest_in_box e.prim v (hbox _ h1) (htri _ h1)
+  have h := closest_eq_scan t hc v hprim
+  revert h
+  cases hcl : closestPoint t v with
+  | none =>
+    intro h
+    simp only at h
+    have : mkElems ps = [] := by
+      have := hp.symm.subset
+      rw [h] at this
+      exact List.eq_nil_iff_forall_not_mem.mpr (fun e he => by simpa using this he)
+    have hps : ps = [] := by
+      simp only [mkElems, List.map_eq_nil_iff, List.zip_eq_nil_iff, List.range_eq_nil,
+        List.length_eq_zero_iff, or_self] at this
+      exact this
+    subst hps
+    simp [newOctreeWithDepth, mkElems, build] at ht
+  | some r =>
+    obtain ⟨i, pt⟩ := r
+    intro h
+    obtain ⟨e, he, hid, hpt, hmin⟩ := h
+    exact ⟨i, pt, rfl, e, hp.subset he, hid, hpt, fun e' he' => hmin e' (hp.symm.subset he')⟩
 
 /-- a tree satisfying `Covers` in which pruning actually matters (two leaves under one root) -/
 noncomputable def exTree : Oct Box (Elem ℝ) :=
